@@ -47,7 +47,11 @@ def run(rep, tier, seed):
             p["o"]["err"] = p["o"]["err"][:-1]
         return mc.probe(traces, ok, bump, "value") + mc.probe(traces, ok, drop, "len")
     mc.judge(rep, cases, obs, probes, lambda c: {"rel": c["rel"], "fam": c["fam"], "n_ref": len(c.get("ref", c.get("angs"))), "n_est": len(c.get("est", c.get("angs")))}, seed)
-    rep.rule = ("TLC enumerates single pose pairs (reference rotations x all 24 estimate rotations x translation differences on the "
+    from drivers import c15
+    c15.run_metric_pipeline(rep, tier, seed, "ape")
+    rep.rule = ("[file pipeline of evo_ape: TLC enumerates downsample x reference crop x time offset x alignment mode x n_to_align x projection "
+                "x relation x format over a 5-pose reference and a denser 9-pose estimate, expected stored values computed in TLA+ by "
+                "PipelineProps] " +"TLC enumerates single pose pairs (reference rotations x all 24 estimate rotations x translation differences on the "
                 "Pythagorean lattice x 6 pose relations) and short sequences incl. unequal lengths, checks the corollaries (zero iff equal, "
                 "invariance under a common rigid motion, symmetry) on the model; + seeded random sequences up to 30 poses; each executed by "
                 "metrics.APE (both storage modes, 3 units) and judged by MetricsProps!APEVerdict; non-trivial = distinct accepted-length cases")
